@@ -214,7 +214,7 @@ func ruleRetryAndNotify(c *Check, rule string) {
 	}
 	inner := hs[len(hs)-1]
 	nFail, nOK := 0, 0
-	retryOK, lastOK := true, true
+	retryOK, lastOK, giveUpOnlyWhenMarked := true, true, true
 	for i := range paths {
 		p := &paths[i]
 		for _, lo := range callsOf(p, fnDlLoadOnce) {
@@ -235,6 +235,15 @@ func ruleRetryAndNotify(c *Check, rule string) {
 				cancelled := p.End == "return" && !retIsNilErr(p) && len(sl) == 1
 				if !(len(sl) == 1 && (cont || cancelled)) || lastSet {
 					retryOK = false
+					marked := false
+					for _, cd := range p.Conds() {
+						if cd.Atom.Kind == "cmp" && strings.Contains(cd.Atom.A+cd.Atom.B, ".last.FullName") && p.State.RelOf(cd.Atom.Dom, cd.Atom.A, cd.Atom.B) == EQ {
+							marked = true
+						}
+					}
+					if !marked || lastSet {
+						giveUpOnlyWhenMarked = false
+					}
 				}
 			} else {
 				nOK++
@@ -260,15 +269,21 @@ func ruleRetryAndNotify(c *Check, rule string) {
 		}
 	}
 	B := retryOK && reread && nFail > 0
-	// A: the receiver notifies on any change of the newest name
+	// A: the receiver notifies on any change of the newest name. A is what
+	// guarantees delivery of the promoted older snapshot for every
+	// configuration: after a corrupt load the downloader's re-read only sees
+	// the promoted name if the next listing happens within its retry sleep
+	// (retry interval > poll interval), which is a property of the settings.
 	A, detail := receiverNotifiesOnAnyChange(c, rule)
 	switch {
 	case A && B:
 		c.Ok(rule, fnDlRun+"/retry-and-notify", fmt.Sprintf("a failed load (%d paths) sleeps (cancellable) and goes back to re-read the receiver's newest name for the instance, never marking it processed; the receiver notifies the downloader whenever the newest name of an instance changes (%s)", nFail, detail), pos)
-	case A || B:
-		c.Ok(rule, fnDlRun+"/retry-and-notify", fmt.Sprintf("delivery of a promoted older snapshot is still guaranteed by one of the two mechanisms (receiver notifies on any name change: %v; downloader keeps retrying and re-reading the newest name after a failure: %v)", A, B), pos)
+	case A && giveUpOnlyWhenMarked:
+		c.Ok(rule, fnDlRun+"/retry-and-notify", fmt.Sprintf("the receiver notifies the downloader whenever the newest name of an instance changes (%s); a failed load is retried except where the name was just recorded as processed (marked corrupt), which the notification covers", detail), pos)
+	case A:
+		c.Bad(rule, fnDlRun+"/retry-and-notify", "a failed load is neither retried (sleep, then re-read the newest name) nor known to be the marked-corrupt name: a transient storage error would leave the instance's newest snapshot undelivered until it publishes another", pos, nil)
 	default:
-		c.Bad(rule, fnDlRun+"/retry-and-notify", "neither does the downloader keep retrying (re-reading the newest name) after a failed or corrupt load, nor does the receiver notify on every change of an instance's newest name: when the newest blob is undecodable, the older decodable snapshot is never delivered ("+detail+")", pos, nil)
+		c.Bad(rule, fnDlRun+"/retry-and-notify", "the receiver does not notify on every change of an instance's newest name: when the newest blob is undecodable, the promoted older decodable snapshot is only delivered if the next listing happens to fall inside the downloader's retry sleep (retry interval > poll interval), otherwise never ("+detail+")", pos, nil)
 	}
 	c.Expect(lastOK && nOK > 0, rule, fnDlRun+"/last-after-success", "d.last = ni is set after a successful LoadOnce", "a successful load does not record the name as processed", pos)
 	c.Floor(rule, nFail, 1, "failed-load paths in Downloader.Run")
